@@ -3,6 +3,7 @@ package base32
 
 import (
 	b32 "encoding/base32"
+	"strings"
 )
 
 // EncodeToString encodes binary data to a base32 string using I2P's encoding alphabet.
@@ -67,7 +68,26 @@ func EncodeToStringNoPadding(data []byte) string {
 // This accepts the standard I2P .b32.i2p address format (52 unpadded characters
 // for a 32-byte hash).
 func DecodeStringNoPadding(data string) ([]byte, error) {
+	if err := validateUnpaddedInput(data); err != nil {
+		return nil, err
+	}
 	return I2PEncodingNoPadding.DecodeString(data)
+}
+
+// validateUnpaddedInput rejects every byte outside the I2P alphabet (line breaks excepted).
+// An encoding built WithPadding(NoPadding) compares input bytes with byte(-1), so the
+// standard decoder treats the byte 0xFF as a padding character and accepts it.
+func validateUnpaddedInput(data string) error {
+	for i := 0; i < len(data); i++ {
+		c := data[i]
+		if c == '\r' || c == '\n' {
+			continue
+		}
+		if strings.IndexByte(I2PEncodeAlphabet, c) < 0 {
+			return b32.CorruptInputError(i)
+		}
+	}
+	return nil
 }
 
 // EncodeToStringSafe encodes binary data to a base32 string with input validation.
@@ -113,6 +133,9 @@ func DecodeStringSafeNoPadding(data string) ([]byte, error) {
 	}
 	if len(data) > MAX_DECODE_SIZE {
 		return nil, ErrInputTooLarge
+	}
+	if err := validateUnpaddedInput(data); err != nil {
+		return nil, err
 	}
 	return I2PEncodingNoPadding.DecodeString(data)
 }
